@@ -67,7 +67,7 @@ def readExactly (n : Nat) : Bytes → List Bytes → Except Bytes (Bytes × Byte
   | buf, [] => if n ≤ buf.length then .ok (buf.take n, buf.drop n, []) else .error buf
   | buf, c :: cs =>
     if n ≤ buf.length then .ok (buf.take n, buf.drop n, c :: cs)
-    else readExactly n (buf ++ c) cs          -- `_wait_for_data`, then `feed_data(c)`
+    else readExactly n (Reader.feed ⟨buf, cs⟩ c).buf cs     -- `_wait_for_data`, then `feed_data(c)`
 
 inductive Stage | id | len | body
 deriving Repr, DecidableEq
